@@ -102,6 +102,7 @@ def cut(text, lens):
 
 CONFIGS_FULL = [(p, c, h) for p in POLICIES for c in (None, '#') for h in (False, True)]
 CONFIGS_NOHDR = [(p, c, False) for p in POLICIES for c in (None, '#')]
+CONFIGS_NOHDR_QUICK = [('quoted_rfc', None, False), ('quoted_rfc', '#', False), ('quoted', None, False), ('simple', '#', False)]
 
 
 def check_against_reference(res, text, cfg, whole, encoding=None, dlm=','):
@@ -298,7 +299,7 @@ def run_shard(spec, res):
             if idx % spec['k'] != spec['i']:
                 continue
             text = ''.join(tup)
-            configs = CONFIGS_FULL if len(tup) <= FULL_LEN[tier] else CONFIGS_NOHDR
+            configs = CONFIGS_FULL if len(tup) <= FULL_LEN[tier] else (CONFIGS_NOHDR if tier == 'thorough' else CONFIGS_NOHDR_QUICK)
             run_text(ns, res, text, configs, parts_by_len, rng, 0)
             res.count('exhaustive_texts')
             if idx % 50021 == 0:
@@ -326,7 +327,7 @@ def run_shard(spec, res):
 
 def summarize(tier, seed, m):
     return {
-        'rule': 'every text of length <= %d over {a, quote, comma, LF, CR, #, space} x all 2^(n-1) partitions into successive reads (chunk_size n+1) x policies {simple, quoted, quoted_rfc} x comment prefix {none, #} x header {off, on}; length %d with header off; for each text also chunk_size 1..n on the undivided text; every byte partition of %d multi-byte UTF-8 / latin-1 / BOM samples through a RawIOBase; random longer texts with random partitions and chunk sizes (text and byte level); the same exhaustive differential up to 5 / 6 characters for 7 further dialects (semicolon, space + whitespace policy, space + quoted, monocolumn, multi-character delimiter with quoted_rfc and simple, tab) with single- and multi-character comment prefixes. Each whole read is also compared with the reference reader. distinct_nontrivial = (text, configuration) pairs whose text contains a line break or a quote.' % (FULL_LEN[tier], EXTRA_LEN[tier], len(byte_samples())),
+        'rule': 'every text of length <= %d over {a, quote, comma, LF, CR, #, space} x all 2^(n-1) partitions into successive reads (chunk_size n+1) x policies {simple, quoted, quoted_rfc} x comment prefix {none, #} x header {off, on}; length %d with header off (quick tier: 4 of the 6 policy x comment configurations at that length); for each text also chunk_size 1..n on the undivided text; every byte partition of %d multi-byte UTF-8 / latin-1 / BOM samples through a RawIOBase; random longer texts with random partitions and chunk sizes (text and byte level); the same exhaustive differential up to 5 / 6 characters for 7 further dialects (semicolon, space + whitespace policy, space + quoted, monocolumn, multi-character delimiter with quoted_rfc and simple, tab) with single- and multi-character comment prefixes. Each whole read is also compared with the reference reader. distinct_nontrivial = (text, configuration) pairs whose text contains a line break or a quote.' % (FULL_LEN[tier], EXTRA_LEN[tier], len(byte_samples())),
         'exhaustive': True,
         'required': ['partition_runs', 'byte_partition_runs', 'reference_comparisons', 'chunk_size_runs', 'dialect_partition_runs', 'dialect_reference_comparisons'],
         'assumptions': ['all delivery sequences a stream can produce are covered by enumerating partitions under a large chunk_size (a read(k) request returns min(piece, k)) plus the chunk-size sweep',
